@@ -44,6 +44,7 @@ def run(ctx):
         ctx.run_rule("R7-oversize-gate", c02.r7_oversize, F)    # the dispatcher accepts what max_write promised
         ctx.run_rule("R5-toggles", r5_toggles, F, table)
         ctx.run_rule("R6-reinit", r6_reinit, F, table)
+        ctx.run_rule("R9-version-recorded", r9_version, F)
         # what was negotiated stays what it was: each release path obeys its own toggle; toggles survive save/restore field by field
         from rules import c15, c19
         ctx.run_rule("R8-toggle-use", c15.release_toggles, F, "R8-toggle-use")
@@ -256,6 +257,33 @@ def r5_toggles(ctx, F, table):
             ctx.check("R5-toggles", "%s.%s/negotiated" % (tag, fld), ok,
                       "%s::init switches `%s` on without the client having offered %s (guards: %s)" % (tag, fld, row["flag"], [x for x in g if "capable" in x] or g[:3]),
                       loc=c.loc(), detail=need)
+            # exact condition, as a truth table over (under-vfs, configured, offered): a toggle is switched on iff the client offered
+            # the feature and either the backend sits under a vfs (which negotiated already) or its own configuration asks for it
+            from rules import c20
+            import itertools
+            atoms, ev = c20.refusal_table(b, v, c.bb, 0, None, b)
+            D = [x for x in atoms if re.fullmatch(r"self\.(cfg|config)\.do_import", x)]
+            X = [x for x in atoms if re.fullmatch(r"self\.(cfg|config)\.%s" % fld, x)]
+            Cc = [x for x in atoms if x in ("FsOptions::contains(capable, %s)" % row["flag"], "has(capable.bits, %s)" % row["flag"], "has(capable, %s)" % row["flag"])]
+            when = row.get("when", "(!import|cfg)&cap")
+            want_fn = {"(!import|cfg)&cap": lambda d, x, k: (not d or x) and k, "cap": lambda d, x, k: k, "cfg&cap": lambda d, x, k: x and k}[when]
+            need_atoms = {"(!import|cfg)&cap": (D, X, Cc), "cap": (Cc,), "cfg&cap": (X, Cc)}[when]
+            tt_ok = all(len(a_) == 1 for a_ in need_atoms)
+            bad_rows = []
+            if tt_ok:
+                for (d_, x_, k_) in itertools.product([False, True], repeat=3):
+                    assign = {}
+                    if D:
+                        assign[D[0]] = d_
+                    if X:
+                        assign[X[0]] = x_
+                    if Cc:
+                        assign[Cc[0]] = k_
+                    if ev(assign) != bool(want_fn(d_, x_, k_)):
+                        bad_rows.append((d_, x_, k_))
+            ctx.check("R5-toggles", "%s.%s/condition" % (tag, fld), tt_ok and not bad_rows,
+                      "%s::init switches `%s` on under a condition other than `%s` (do_import, configured, offered) - differing rows: %s; atoms: %s"
+                      % (tag, fld, when, bad_rows[:4], sorted(x for x in atoms if fld in x or "do_import" in x or row["flag"] in x)), loc=c.loc())
             for extra in row.get("also", []):
                 ctx.check("R5-toggles", "%s.%s/config" % (tag, fld), any(extra in x for x in g),
                           "%s::init: `%s` no longer depends on `%s`" % (tag, fld, extra), loc=c.loc())
@@ -304,6 +332,30 @@ def r5_toggles(ctx, F, table):
             t = vf.render(a[1], b, roots + [(vf.field(stored, "out_opts"), "OUT")], short=True, vfx=v)
             ctx.check("R5-toggles", "Vfs.backend-init-arg", t == "OUT", "Vfs::init initialises backends with `%s`, not the negotiated set" % t[:120], loc=c.loc())
     ctx.floor("R5-toggles", 30)
+
+
+def r9_version(ctx, F):
+    """The client's protocol version is what later version-dependent replies consult (lookup's negative entries, C03): a
+    successful INIT records exactly (InitIn.major, InitIn.minor) before it answers."""
+    b = F.method(common.SERVER, "init")
+    v = vf.VF(b)
+    roots = common.request_roots(v, b) + common.ctx_roots(b)
+    st = [c for c in live_calls(b) if c.name == "store" and "arc_swap" in (c.fn or "")]
+    ok = len(st) == 1
+    a = g = None
+    if ok:
+        a = [vf.render(x, b, roots, short=True, vfx=v) for x in v.call_args(st[0])]
+        g = [(vf.render(x, b, roots, short=True, vfx=v), l) for (x, l, u) in v.guards(st[0].bb)]
+        ok = a[0] == "self.vers" and a[1] == "Arc::new(ServerVersion{major: InitIn.major, minor: InitIn.minor})"
+    ctx.check("R9-version-recorded", "stored-value", ok, "Server::init records `%s` as the session's protocol version; required the client's (major, minor)" % (a[1][:160] if a else "nothing"), loc=b.loc())
+    if ok:
+        fsok = [t for (t, l) in g if t.startswith("discr(FileSystem::init(") and l == 0]
+        extra = [(t, l) for (t, l) in g if not t.startswith("discr(") and "InitIn.major" not in t]
+        ctx.check("R9-version-recorded", "on-success", bool(fsok) and not extra, "the version is recorded under %s; it must be recorded whenever the filesystem accepted the INIT" % extra, loc=st[0].loc())
+        replies = [c for c in live_calls(b) if c.name == "reply_ok" and any(t.startswith("discr(FileSystem::init(") and l == 0 for (t, l) in
+                   [(vf.render(x, b, roots, short=True, vfx=v), l) for (x, l, u) in v.guards(c.bb)])]
+        ctx.check("R9-version-recorded", "before-reply", bool(replies) and all(b.dominates(st[0].bb, c.bb) for c in replies),
+                  "a successful INIT can be answered before (or without) recording the protocol version", loc=st[0].loc())
 
 
 def r6_reinit(ctx, F, table):
